@@ -481,7 +481,7 @@ def all_cases(tier):
           ("Depacketizer(dw=64,14B,unaligned)", c_depacketizer_unaligned, 64, mkfields(14), 14), ("Depacketizer(dw=16,3B,unaligned)", c_depacketizer_unaligned, 16, mkfields(3), 3),
           ("Depacketizer(dw=32,31B,unaligned)", c_depacketizer_unaligned, 32, mkfields(31), 31), ("Depacketizer(dw=128,31B,unaligned)", c_depacketizer_unaligned, 128, mkfields(31), 31),
           ("Packetizer(dw=32,3B,short)", c_short_header, "packetizer", 32, 3), ("Depacketizer(dw=32,3B,short)", c_short_header, "depacketizer", 32, 3),
-          ("Dispatcher(2)", c_dispatcher, 2), ("Dispatcher(3)", c_dispatcher, 3), ("Dispatcher(3,one_hot)", c_dispatcher, 3, True), ("Dispatcher(4)", c_dispatcher, 4),
+          ("Dispatcher(2)", c_dispatcher, 2), ("Dispatcher(3)", c_dispatcher, 3), ("Dispatcher(3,one_hot)", c_dispatcher, 3, True), ("Dispatcher(1,one_hot)", c_dispatcher, 1, True), ("Dispatcher(2,one_hot)", c_dispatcher, 2, True), ("Dispatcher(4)", c_dispatcher, 4),
           ("Arbiter(2)", c_arbiter, 2), ("Arbiter(3)", c_arbiter, 3), ("Status", c_status),
           ("PacketFIFO(4,2)", c_packetfifo, 4, 2), ("PacketFIFO(4,2,buffered)", c_packetfifo, 4, 2, True)]
     if tier == "thorough":
